@@ -3,6 +3,7 @@ package store
 import (
 	"bytes"
 	"context"
+	"encoding/binary"
 	"os"
 	"path/filepath"
 
@@ -133,6 +134,29 @@ func Verif_H03Crash() {
 			if st.present {
 				rm.old[i] = append(rm.old[i], st.val)
 			}
+		}
+	}
+	// C13 across a crash: whatever the recovered freelist holds (complete entries; a torn
+	// last entry is cut off) must not name a location the recovered index still uses
+	var pend []byte
+	for _, n := range []string{"i.free", "i.free.gc"} {
+		b, err := os.ReadFile(filepath.Join(img, n))
+		if err == nil {
+			pend = append(pend, b[:len(b)/12*12]...)
+		}
+	}
+	for i := range keys {
+		if !rm.present[i] {
+			continue
+		}
+		cur, ok := currentLoc(r, keys[i])
+		if !ok {
+			continue
+		}
+		for o := 0; o+12 <= len(pend); o += 12 {
+			off := binary.LittleEndian.Uint64(pend[o:])
+			sz := binary.LittleEndian.Uint32(pend[o+8:])
+			vrt.Assert(!(off == uint64(cur.Offset) && sz == uint32(cur.Size)), "recovered-freelist-never-names-a-current-location", "window", window)
 		}
 	}
 	// the recovered store keeps behaving like a map, including through GC
